@@ -239,10 +239,21 @@ class Interp:
     def call_value(self, fterm: Term, args: Tuple[Term, ...], conds: Tuple[Cond, ...] = (), loops: Tuple[int, ...] = ()) -> Optional[Term]:
         """Result term of calling a closure term with `args` at a point with the given path condition (used by rules to look
         into key functions / callbacks that the analysed code only passes along).  The event log is left unchanged."""
-        if fterm[0] != "lam":
-            return None
-        c = self.closures[fterm[1]]
         n_ev, n_lp, n_ob, seq = len(self.events), len(self.loops), len(self.objs), self._seq
+        if fterm[0] != "lam":
+            # a package function that is not part of the reference vocabulary (a helper selected into a local)
+            dummy = ast.Call(func=ast.Name(id="<post-hoc>", ctx=ast.Load()), args=[], keywords=[], lineno=0, col_offset=0)
+            tgt, self_term = self._resolve(dummy, fterm, self.top)
+            if tgt is None or not self.inline(tgt) or isinstance(tgt.node, ast.Lambda):
+                return None
+            given = ((self_term,) + tuple(args)) if self_term is not None else tuple(args)
+            try:
+                return self._inline(tgt.node, None, self._module_defaults(tgt), tgt, given, (), _State(conds, loops), dummy, tgt)
+            finally:
+                self.post_events = self.events[n_ev:]
+                del self.events[n_ev:]
+                self._seq = seq
+        c = self.closures[fterm[1]]
         dummy = ast.Call(func=ast.Name(id="<post-hoc>", ctx=ast.Load()), args=[], keywords=[], lineno=getattr(c.node, "lineno", 0), col_offset=0)
         try:
             r = self._inline(c.node, c.frame, c.defaults, c.finfo, tuple(args), (), _State(conds, loops), dummy, None)
